@@ -36,6 +36,9 @@ type start struct {
 type phaseD struct {
 	Oracle string  `json:"oracle"`           // one letter per address: a r h
 	SetIdx *uint32 `json:"setidx,omitempty"` // force e.addrsIdx before the phase
+	Renew  string  `json:"renew,omitempty"`  // "flush" (FlushDNSCache) | "expire" (wait past DNSCacheDuration): the entry is re-resolved
+	NewN   int     `json:"newn,omitempty"`   // ... and the Resolver now returns this many addresses (0 = unchanged)
+	Res    string  `json:"res,omitempty"`    // what the Resolver does if consulted in this phase: "" ok | "err" | "hang"
 	Starts []start `json:"starts"`
 }
 type desc struct {
@@ -46,12 +49,54 @@ type desc struct {
 	M      int      `json:"m,omitempty"`
 	To     int      `json:"to,omitempty"`
 	Acc    bool     `json:"acc,omitempty"`
+	// which entry point / configuration (dial cases)
+	API   string `json:"api,omitempty"`   // "" DialTimeout | "dial" Dial (DefaultDialTimeout) | "dual" DialDualStackTimeout | "dualdial" DialDualStack
+	NoDNS bool   `json:"nodns,omitempty"` // DisableDNSResolution: the address is dialled as given (N must be 1)
+	Pkg   bool   `json:"pkg,omitempty"`   // package-level fasthttp.DialTimeout etc. (default dialer, IP literal, N must be 1)
+	V6    int    `json:"v6,omitempty"`    // the Resolver also returns this many IPv6 addresses first: skipped unless dual stack
 }
 
-type fakeResolver struct{ ips []net.IPAddr }
+type fakeResolver struct {
+	mu    sync.Mutex
+	ips   []net.IPAddr
+	mode  string // "" | "err" | "hang"
+	calls int
+}
+
+var errFakeResolver = errors.New("verif: resolver failure")
 
 func (f *fakeResolver) LookupIPAddr(ctx context.Context, host string) ([]net.IPAddr, error) {
-	return f.ips, nil
+	f.mu.Lock()
+	mode, ips := f.mode, f.ips
+	f.calls++
+	f.mu.Unlock()
+	switch mode {
+	case "err":
+		return nil, errFakeResolver
+	case "hang": // like net.Resolver: gives up when its context does
+		<-ctx.Done()
+		return nil, ctx.Err()
+	}
+	return ips, nil
+}
+func (f *fakeResolver) set(mode string, ips []net.IPAddr) {
+	f.mu.Lock()
+	f.mode = mode
+	if ips != nil {
+		f.ips = ips
+	}
+	f.mu.Unlock()
+}
+
+func ipList(n, v6 int) []net.IPAddr {
+	var ips []net.IPAddr
+	for k := 0; k < v6; k++ {
+		ips = append(ips, net.IPAddr{IP: net.ParseIP("::1")})
+	}
+	for k := 0; k < n; k++ {
+		ips = append(ips, net.IPAddr{IP: ipOf(k)})
+	}
+	return ips
 }
 
 func ipOf(k int) net.IP { return net.IPv4(127, 0, 0, byte(10+k)) }
@@ -159,7 +204,19 @@ func addrIndex(s string) int {
 	return int(ip[3]) - 10
 }
 
-func classify(c net.Conn, err error) string {
+func classify(c net.Conn, err error) string { return classifyOff(c, err, 0) }
+
+// classifyOff: in dual-stack cases the IPv6 entries come first: address numbers of the IPv4 ones are shifted by off
+func classifyOff(c net.Conn, err error, off int) string {
+	addrIndex := func(s string) int {
+		if host, _, e := net.SplitHostPort(s); e == nil && host == "::1" {
+			return 0
+		}
+		if i := addrIndex(s); i != 999 {
+			return i + off
+		}
+		return 999
+	}
 	if err == nil {
 		idx := addrIndex(c.RemoteAddr().String())
 		c.Close()
@@ -167,6 +224,9 @@ func classify(c net.Conn, err error) string {
 	}
 	var up *fasthttp.ErrDialWithUpstream
 	if !errors.As(err, &up) {
+		if errors.Is(err, errFakeResolver) || errors.Is(err, context.DeadlineExceeded) {
+			return "(Ret XResolveErr)"
+		}
 		return "(Ret (XErr 999))"
 	}
 	if errors.Is(err, fasthttp.ErrDialTimeout) {
@@ -192,11 +252,7 @@ func oracleCoq(o string) string {
 
 func newDialer(capn, n int) (*fasthttp.TCPDialer, string, int) {
 	port := int(atomic.AddInt32(&portCounter, 1))
-	ips := make([]net.IPAddr, n)
-	for k := range ips {
-		ips[k] = net.IPAddr{IP: ipOf(k)}
-	}
-	d := &fasthttp.TCPDialer{Concurrency: capn, Resolver: &fakeResolver{ips}}
+	d := &fasthttp.TCPDialer{Concurrency: capn, Resolver: &fakeResolver{ips: ipList(n, 0)}}
 	return d, "verif.test:" + strconv.Itoa(port), port
 }
 
@@ -337,16 +393,93 @@ func runDialOnce(d desc) (hlib.Case, string, bool) {
 	total := 0
 	stable := true
 	resSig := ""
+	rsv := dialer.Resolver.(*fakeResolver)
+	dual := d.API == "dual" || d.API == "dualdial"
+	v6 := d.V6
+	if dual && v6 > 1 {
+		v6 = 1 // there is only one IPv6 loopback address
+	}
+	rsv.set("", ipList(d.N, v6))
+	v6off := 0 // in dual-stack mode the IPv6 entries are addresses 0..v6-1 (nothing listens there: they refuse)
+	if dual {
+		v6off = v6
+	}
+	curN := d.N
+	if d.NoDNS || d.Pkg {
+		curN = 1
+		addr = net.JoinHostPort(ipOf(0).String(), strconv.Itoa(port))
+		dialer.DisableDNSResolution = d.NoDNS
+	}
+	expiring := false
+	for _, p := range d.Phases {
+		if p.Renew == "expire" {
+			expiring = true
+		}
+	}
+	if expiring {
+		dialer.DNSCacheDuration = 150 * time.Millisecond // otherwise the default (one minute)
+	}
+	lastResolve := time.Now()
+	initN := curN + v6off
+	modelCap := d.Cap
+	if d.Pkg {
+		modelCap = 1000 // defaultDialer
+	}
+	call := func(to time.Duration) (net.Conn, error) {
+		switch {
+		case d.Pkg && d.API == "dial":
+			return fasthttp.Dial(addr)
+		case d.Pkg && d.API == "dual":
+			return fasthttp.DialDualStackTimeout(addr, to)
+		case d.Pkg && d.API == "dualdial":
+			return fasthttp.DialDualStack(addr)
+		case d.Pkg:
+			return fasthttp.DialTimeout(addr, to)
+		case d.API == "dial":
+			return dialer.Dial(addr)
+		case d.API == "dual":
+			return dialer.DialDualStackTimeout(addr, to)
+		case d.API == "dualdial":
+			return dialer.DialDualStack(addr)
+		}
+		return dialer.DialTimeout(addr, to)
+	}
+	defaultTo := d.API == "dial" || d.API == "dualdial"
 	for _, ph := range d.Phases {
+		if defaultTo { // Dial / DialDualStack: DefaultDialTimeout
+			cp := append([]start(nil), ph.Starts...)
+			for i := range cp {
+				cp[i].To = int(fasthttp.DefaultDialTimeout / time.Millisecond)
+			}
+			ph.Starts = cp
+		}
+		renew := "None"
+		if ph.Renew != "" && !d.NoDNS && !d.Pkg {
+			if ph.NewN > 0 {
+				curN = ph.NewN
+			}
+			rsv.set("", ipList(curN, v6))
+			if ph.Renew == "flush" {
+				dialer.FlushDNSCache()
+			} else {
+				time.Sleep(dialer.DNSCacheDuration + 20*time.Millisecond)
+			}
+			renew = fmt.Sprintf("(Some %d)", curN+v6off)
+			lastResolve = time.Now()
+		} else if expiring && time.Since(lastResolve) > 100*time.Millisecond {
+			return hlib.Case{}, "", false // the machine is so slow that the entry may have expired on its own: run again
+		}
+		rsv.set(ph.Res, nil)
 		oracle := ph.Oracle
-		for len(oracle) < d.N {
+		for len(oracle) < curN {
 			oracle += "r"
 		}
-		oracle = oracle[:d.N]
+		oracle = oracle[:curN]
 		eps, err := setup(oracle, port)
 		if err != nil {
 			panic(err)
 		}
+		oracle = strings.Repeat("r", v6off) + oracle
 		setidx := "None"
 		if ph.SetIdx != nil {
 			if fasthttp.VerifC41SetAddrsIdx(dialer, addr, *ph.SetIdx) {
@@ -382,9 +515,9 @@ func runDialOnce(d desc) (hlib.Case, string, bool) {
 			go func(i int, st start) {
 				b := time.Now()
 				lateCh <- b.Sub(t0.Add(time.Duration(st.Off) * time.Millisecond))
-				c, err := dialer.DialTimeout(addr, time.Duration(st.To)*time.Millisecond)
+				c, err := call(time.Duration(st.To) * time.Millisecond)
 				el := time.Since(b).Milliseconds()
-				resCh[i] <- res{st.T, st.To, classify(c, err), el}
+				resCh[i] <- res{st.T, st.To, classifyOff(c, err, v6off), el}
 			}(i, st)
 			select {
 			case late[i] = <-lateCh:
@@ -437,16 +570,17 @@ func runDialOnce(d desc) (hlib.Case, string, bool) {
 			sig[strings.Fields(strings.NewReplacer("(", "", ")", "", "Ret ", "").Replace(r.r))[0]+fmt.Sprint(len(ph.Starts) > 1)+fmt.Sprint(strings.Contains(oracle, "h"))] = true
 			total++
 		}
-		phases = append(phases, fmt.Sprintf("mkPh %s %s %s %s", oracleCoq(oracle), setidx, hlib.List(starts), hlib.List(rs)))
+		rmode := map[string]string{"": "RGood", "err": "RFail", "hang": "RHangs"}[ph.Res]
+		phases = append(phases, fmt.Sprintf("mkPh %s %s %s %s %s %s", oracleCoq(oracle), setidx, renew, rmode, hlib.List(starts), hlib.List(rs)))
 		if stuck {
 			resSig += "STUCK"
 			break // the dialer may be wedged: the history so far is the failing case
 		}
 	}
 	return hlib.Case{
-		Coq:  fmt.Sprintf("CDial %d %d %s", d.Cap, d.N, hlib.List(phases)),
+		Coq:  fmt.Sprintf("CDial %d %d %s", modelCap, initN, hlib.List(phases)),
 		Key:  key,
-		Sig:  fmt.Sprintf("dial:%d:%d:%s", d.Cap, d.N, strings.Join(hlib.SortedKeys(sig), ",")),
+		Sig:  fmt.Sprintf("dial:%d:%d:%s:%v:%v:%d:%s", d.Cap, d.N, d.API, d.NoDNS, d.Pkg, d.V6, strings.Join(hlib.SortedKeys(sig), ",")),
 		Kind: "dial",
 		Size: total,
 	}, resSig, true
@@ -601,6 +735,26 @@ func gen(r *rand.Rand, i int) desc {
 			}
 			d.Phases = append(d.Phases, phaseD{Oracle: o, Starts: []start{{0, p, 60 + 10*r.Intn(6)}}})
 		}
+		switch y := r.Intn(20); {
+		case y < 2:
+			d.N, d.NoDNS = 1, true
+		case y < 3:
+			d.N, d.Pkg = 1, true
+		case y < 5:
+			d.API, d.V6 = "dual", r.Intn(2)
+		case y < 7:
+			d.V6 = 1 + r.Intn(2)
+		case y < 8:
+			d.Phases[0].Res = hlib.Pick(r, []string{"err", "hang"})
+		case y < 10 && np > 2:
+			k := 1 + r.Intn(np-1)
+			d.Phases[k].Renew, d.Phases[k].NewN = "flush", 1+r.Intn(4)
+		case y < 11: // Dial with the default timeout: no hanging address
+			d.API = "dial"
+			for i := range d.Phases {
+				d.Phases[i].Oracle = strings.ReplaceAll(d.Phases[i].Oracle, "h", "r")
+			}
+		}
 		return d
 	case x < 70: // all refuse / one accepts: the full rotation
 		n := 2 + r.Intn(4)
@@ -676,6 +830,23 @@ func corpus() []desc {
 		// remaining time, not a fresh full timeout (B would come back after ~1125 ms instead of ~600 ms)
 		{Kind: "dial", Cap: 1, N: 1, Phases: []phaseD{{Oracle: "h", Starts: []start{{0, 0, 550}, {25, 1, 600}}}, {Oracle: "a", Starts: one(2, 100)}}},
 		{Kind: "dial", Cap: 2, N: 2, Phases: []phaseD{{Oracle: "hh", Starts: []start{{0, 0, 450}, {25, 1, 520}, {50, 2, 600}}}, {Oracle: "aa", Starts: one(3, 100)}}},
+		// DisableDNSResolution: the address is dialled as given (semaphore and timeout still apply)
+		{Kind: "dial", Cap: 1, N: 1, NoDNS: true, Phases: []phaseD{{Oracle: "a", Starts: one(0, 100)}, {Oracle: "r", Starts: one(1, 100)}, {Oracle: "h", Starts: []start{{0, 2, 150}, {25, 3, 60}}}, {Oracle: "a", Starts: one(4, 100)}}},
+		// the package-level functions (default dialer, Concurrency 1000) and the default-timeout entry points
+		{Kind: "dial", N: 1, Pkg: true, Phases: []phaseD{{Oracle: "a", Starts: one(0, 100)}, {Oracle: "r", Starts: one(1, 100)}, {Oracle: "h", Starts: one(2, 80)}}},
+		{Kind: "dial", N: 1, Pkg: true, API: "dial", Phases: []phaseD{{Oracle: "a", Starts: one(0, 100)}, {Oracle: "r", Starts: one(1, 100)}}},
+		{Kind: "dial", N: 1, Pkg: true, API: "dual", Phases: []phaseD{{Oracle: "a", Starts: one(0, 100)}, {Oracle: "h", Starts: one(1, 80)}}},
+		{Kind: "dial", Cap: 1, N: 2, API: "dial", Phases: []phaseD{{Oracle: "ra", Starts: one(0, 100)}, {Oracle: "rr", Starts: one(1, 100)}, {Oracle: "ar", Starts: one(2, 100)}}},
+		// dual stack: the IPv6 address the Resolver returned is part of the rotation (nothing listens there); without dual stack it is skipped
+		{Kind: "dial", Cap: 1, N: 2, V6: 1, API: "dual", Phases: []phaseD{{Oracle: "aa", Starts: one(0, 100)}, {Oracle: "rr", Starts: one(1, 100)}, {Oracle: "ra", Starts: one(2, 100)}, {Oracle: "rr", Starts: one(3, 100)}}},
+		{Kind: "dial", Cap: 0, N: 2, V6: 1, API: "dualdial", Phases: []phaseD{{Oracle: "ra", Starts: one(0, 100)}, {Oracle: "rr", Starts: one(1, 100)}}},
+		{Kind: "dial", Cap: 1, N: 2, V6: 2, Phases: []phaseD{{Oracle: "ra", Starts: one(0, 100)}, {Oracle: "rr", Starts: one(1, 100)}, {Oracle: "ar", Starts: one(2, 100)}}},
+		// the Resolver fails / hangs until its context expires; afterwards the dialer works (nothing was cached)
+		{Kind: "dial", Cap: 1, N: 2, Phases: []phaseD{{Oracle: "aa", Res: "err", Starts: one(0, 100)}, {Oracle: "aa", Starts: one(1, 100)}, {Oracle: "aa", Res: "err", Starts: one(2, 100)}}},
+		{Kind: "dial", Cap: 1, N: 2, Phases: []phaseD{{Oracle: "aa", Res: "hang", Starts: one(0, 80)}, {Oracle: "ra", Starts: one(1, 100)}, {Oracle: "rr", Starts: one(2, 100)}}},
+		// the cached entry is dropped (FlushDNSCache) or expires (DNSCacheDuration): the new address list is used, the rotation restarts
+		{Kind: "dial", Cap: 0, N: 3, Phases: []phaseD{{Oracle: "aaa", Starts: one(0, 100)}, {Oracle: "aaa", Starts: one(1, 100)}, {Oracle: "aa", Renew: "flush", NewN: 2, Starts: one(2, 100)}, {Oracle: "ra", Starts: one(3, 100)}, {Oracle: "rr", Starts: one(4, 100)}}},
+		{Kind: "dial", Cap: 1, N: 2, Phases: []phaseD{{Oracle: "aa", Starts: one(0, 100)}, {Oracle: "aaaa", Renew: "expire", NewN: 4, Starts: one(1, 100)}, {Oracle: "rrra", Starts: one(2, 100)}, {Oracle: "aa", Renew: "expire", NewN: 2, Res: "err", Starts: one(3, 100)}, {Oracle: "aa", Renew: "expire", Starts: one(4, 100)}}},
 		// the uint32 rotation counter wraps inside the dial (witnesses of the defect fixed by d625fef): every address must still be tried once
 		{Kind: "dial", Cap: 0, N: 3, Phases: []phaseD{{Oracle: "aaa", Starts: one(0, 100)}, {Oracle: "rra", SetIdx: u(1<<32 - 2), Starts: one(1, 100)}}},
 		{Kind: "dial", Cap: 0, N: 3, Phases: []phaseD{{Oracle: "aaa", Starts: one(0, 100)}, {Oracle: "rrr", SetIdx: u(1<<32 - 2), Starts: one(1, 100)}}},
